@@ -66,6 +66,11 @@ def run(e: Engine, rep: Report):
     rep.errors += sub.errors
     rep.evaluations += sub.evaluations
     rep.functions |= sub.functions
+    rep.rule('L9', 'a pool client cannot keep its place for ever or outlive '
+             'its greenlet: (a) = C14-T1 on the pool-client _run chains; '
+             '(b) no spawn(self.<method that talks to the peer>) in a pool '
+             'client')
+    l9(e, rep)
     rep.floor('L1', 4, 'pool growth sites')
     rep.floor('L4', 9, 'deque overrides')
 
@@ -660,3 +665,76 @@ def l7(e: Engine, rep: Report):
     if n == 0:
         rep.ok('L7', SMTPC, 'no silent timeout around a client exchange',
                reason='every Timeout around self.client.* raises')
+
+
+# --------------------------------------------------------------------- L9
+def l9(e: Engine, rep: Report):
+    """A pool client occupies one of pool_size places for as long as its
+    greenlet lives.  (a) Every blocking exchange with the peer inside its
+    _run lies within a Timeout scope (= C14-T1 on the pool-client entries):
+    a client that can block for ever keeps its place, and with the pool at
+    its bound every later request waits with nobody to serve it.  (b) It
+    does its own tearing down: no method of a pool client hands a method
+    that talks to the peer to another greenlet - the pool counts greenlets,
+    so a connection that outlives its client's greenlet is one more than
+    the bound allows."""
+    from . import c14, c11
+    sub = Report(rep.prop, rep.tier, rep.repo)
+    c14.run(e, sub)
+    n = 0
+    for o in sub.obls:
+        if o.rule == 'T1' and ('RelayClient' in o.where):
+            n += 1
+            rep.add('L9', o.where, o.text, o.status,
+                    (o.what + ' - the pool client never finishes, keeps '
+                     'its place in the pool and later requests are '
+                     'stranded') if o.what else '', o.loc, o.witness,
+                    o.nontrivial, o.reason)
+    rep.evaluations += n
+    rep.functions |= sub.functions
+    if n < 6:
+        rep.error('anchor vanished: blocking primitives on the pool-client '
+                  'chains (%d < 6)' % n)
+    # (b)
+    m = 0
+    for cq in e.concrete_classes(POOL_CLIENT) if 'POOL_CLIENT' in globals() \
+            else e.concrete_classes('slimta.relay.pool.RelayPoolClient'):
+        talk = c11._peer_talkers(e, cq)
+        seen = set()
+        for k in e.p.mro(cq):
+            c = e.p.classes.get(k)
+            if c is None:
+                continue
+            for mname, f in sorted(c.methods.items()):
+                if mname in seen:
+                    continue
+                seen.add(mname)
+                for x in walk_own(f.node):
+                    if not (isinstance(x, ast.Call) and
+                            ast.unparse(x.func).rpartition('.')[2] in (
+                                'spawn', 'spawn_later', 'spawn_raw',
+                                'apply_async')):
+                        continue
+                    for a in x.args:
+                        if isinstance(a, ast.Attribute) and \
+                                isinstance(a.value, ast.Name) and \
+                                a.value.id == 'self' and a.attr in talk:
+                            m += 1
+                            rep.evaluations += 1
+                            rep.bad('L9', f.qname,
+                                    'peer exchange handed to another '
+                                    'greenlet: `%s`' % ' '.join(
+                                        ast.unparse(x).split())[:60],
+                                    '%s runs self.%s, which talks to the '
+                                    'peer, in a greenlet of its own: the '
+                                    'client\'s greenlet can end - and the '
+                                    'pool start a replacement - while this '
+                                    'connection is still open; more '
+                                    'connections than pool_size are live'
+                                    % (f.qname, a.attr), loc=f.loc(x))
+    rep.evaluations += 1
+    if m == 0:
+        rep.ok('L9', 'slimta.relay.pool.RelayPoolClient', 'no pool client '
+               'hands a peer exchange to another greenlet',
+               reason='no spawn(self.<peer talker>) in the client classes',
+               nontrivial=False)
